@@ -24,8 +24,8 @@ import (
 // strict handshake for that distribution point is denied unless an earlier authentic version is in
 // force. For an authentic document nothing is demanded here (that is C15/C16).
 
-var c04signers = []string{"issuer", "trusted", "sibling", "stranger", "ee-key", "ca-no-crlsign", "replayed-signature"}
-var c04akis = []int{akiDefault, akiAbsent, akiIssuerSer, akiBoth, akiForeignKey}
+var c04signers = []string{"issuer", "trusted", "sibling", "stranger", "ee-key", "ca-no-crlsign", "replayed-signature", "root"}
+var c04akis = []int{akiDefault, akiAbsent, akiIssuerSer, akiBoth, akiForeignKey, akiSerialOnly, akiURISerial}
 var c04paths = []string{"first-load", "provision-url", "refresh"}
 var c04algs = []SigAlg{ECDSASHA256, ECDSASHA1, ECDSASHA224, ECDSASHA384, ECDSASHA512, RSASHA256, RSASHA1, RSASHA224, RSASHA384, RSASHA512, RSAPSSSHA256, ED25519, MD5RSA}
 
@@ -41,7 +41,7 @@ func init() {
 		if tier == "thorough" {
 			n = e + c04bitsUpper + 3000 // RSA sweep + sampled refresh-path flips and larger documents
 		}
-		return Plan{Runs: n, Enumerated: e, Exhaustive: true, Level: "fault_enumeration", Rule: "enumerated: (signer in {issuer, configured trusted signer, sibling CA with the same name, stranger, the client certificate's own key, CA without cRLSign, the issuer's genuine signature of ANOTHER list the validator verified earlier in the same process} x AKI form in {keyId, absent, issuer+serial, both, foreign keyId} x intake path in {first CDP load, crl_urls at provision, periodic refresh}) + (13 signature algorithms x intake path) + every single-bit flip of tbsCertList / signatureAlgorithm / signatureValue of a small ECDSA CRL on the first-load path (bit indices past the end of the document are counted as skipped); further runs: the same sweep for an RSA CRL (thorough), flips on the refresh path and on larger documents; oracle: a non-authentic document is never observed in force and a strict handshake for its distribution point is denied unless an earlier authentic version is in force; non-trivial = the delivered document was not authentic"}
+		return Plan{Runs: n, Enumerated: e, Exhaustive: true, Level: "fault_enumeration", Rule: "enumerated: (signer in {issuer, configured trusted signer, sibling CA with the same name, stranger, the client certificate's own key, CA without cRLSign, the issuer's genuine signature of ANOTHER list the validator verified earlier in the same process, the root of the presented chain signing in the issuer's name} x AKI form in {keyId, absent, issuer+serial, both, foreign keyId, serial without issuer, URI issuer + serial} x intake path in {first CDP load, crl_urls at provision, periodic refresh}) + (13 signature algorithms x intake path) + every single-bit flip of tbsCertList / signatureAlgorithm / signatureValue of a small ECDSA CRL on the first-load path (bit indices past the end of the document are counted as skipped); further runs: the same sweep for an RSA CRL (thorough), flips on the refresh path and on larger documents; oracle: a non-authentic document is never observed in force and a strict handshake for its distribution point is denied unless an earlier authentic version is in force; non-trivial = the delivered document was not authentic"}
 	}, Run: runC04})
 }
 
@@ -163,24 +163,26 @@ func runC04(h *Harness) {
 		switch signer {
 		case "issuer", "ca-no-crlsign":
 			doc.Signer = issuer
+			// the issuer matches the CRL's issuer name whatever the AKI says ('matches the issuer name OR the authority key
+			// identifier'): entitled unless its key usage forbids CRL signing; nothing is demanded for an authentic list
 			authentic = signer == "issuer"
-			if aki == akiForeignKey {
-				authentic = false // names a key nobody in the chain has: no entitled certificate matches
-			}
 		case "trusted":
+			// the configured signer carries the issuer's name: entitled by name, whatever the AKI says
 			doc.Signer = trustedT
-			if aki == akiForeignKey {
-				authentic = false
-			}
-			if aki == akiIssuerSer || aki == akiBoth {
-				// issuer+serial of the trusted signer's own certificate: it is self-signed, so issuer = its subject
-				authentic = true
-			}
 		case "sibling":
 			doc.Signer, authentic = w.Sib, false
 			if issuer != w.A {
 				doc.Signer = NewCA(nil, CAOpts{CN: "x", SubjectOf: issuer})
 			}
+		case "root":
+			// a member of the presented chain other than the CRL's issuer signs in the issuer's name (no indirect CRLs:
+			// only the certificate's issuer, or a configured signer, is entitled)
+			doc.Signer = w.Root
+			// The property entitles 'a CA certificate above the end-entity in the presented chain ... that matches the
+			// CRL's issuer name or authority key identifier'. The root does not carry the issuer's name, so it is entitled
+			// exactly when the AKI identifies it properly: by key identifier and/or by issuer AND serial. A serial alone
+			// (or with a non-name issuer) identifies no certificate.
+			authentic = aki == akiDefault || aki == akiIssuerSer || aki == akiBoth
 		case "stranger":
 			doc.Signer, authentic = w.X, false
 		case "ee-key":
@@ -197,7 +199,7 @@ func runC04(h *Harness) {
 			}
 			s := *src
 			s.AutoAlg, s.AKI = true, aki
-			if aki == akiForeignKey {
+			if aki == akiForeignKey || aki == akiSerialOnly || aki == akiURISerial {
 				s.AKI = akiDefault // the earlier list must itself be acceptable
 			}
 			s.Build()
